@@ -1383,6 +1383,8 @@ fn main() {
     out.rule = "element types bf16,f16,f32,f64,i8..i64,u8..u64 as raw little-endian blocks (NaN payloads quiet/signalling, ±inf, ±0, subnormals, min/max, random bits); vectors of every length 0..70 (thorough: 0..4096) plus 127..4096 boundaries, 2^14±1 and (thorough) one 2^20; complex pairs; three-way comparison bulk body / serde body / model, both decoders on both bodies incl. the empty vector; aligned form behind every query length 0..64 for every type and SIZE width, the frame copied to every base misalignment 0..7 of a Vec<u64> and served by the with_typed_slice_ref handler (pointer-range test: borrowed iff payload address aligned); regular / generic / aligned-for-another-offset / corrupted bodies and every first byte through both bulk routes (view and owned); every ordered pair of distinct element types in regular, aligned and complex form; wrong body formats; streaming writers vs buffered builders; real Server and AsyncServer with bulk, aligned and serde clients (blocking and async). Distinct by op line; non-trivial = the decoder / route / call accepted and returned elements (encoders: non-empty vector)".into();
     let ops = match args.replay_ops() {
         Some(o) => o,
+        // `--release-shape` (the optimised-build run of the thorough tier): the quick-sized mix, other seed
+        None if args.has("--release-shape") => generate(args.seed.wrapping_add(0x5EED), false),
         None => generate(args.seed, args.thorough()),
     };
     let need_net = ops.iter().any(|l| l.starts_with("net "));
